@@ -307,6 +307,7 @@ package flate
 //@   ensures[C02 C03 phase] err == nil ==> state.litBlockLength == 0 && (state.bfinal != 0 ==> state.phase == phaseStreamEnd) && (state.bfinal == 0 ==> state.phase == phaseNewBlock)
 //@   ensures[C03 phase] err != nil ==> state.phase == phaseLitBlock
 //@   ensures[C04 end-input-drained] err == errEndInput ==> len(state.input) == 0 && state.bitsLen == 0
+//@   ensures[C11 stops-only-short] err != nil ==> state.litBlockLength > 0
 //@   ensures[C02 C05 accounting] remBits(state) == old(remBits(state)) - 8*(w - written)
 //@   ensures[C02 stored-bytes] forall k :: 0 <= k && k < w - written ==> output[written+k] == (k < int(old(state.bitsLen))/8 ? uint8(old(state.bits) >> uint64(8*k)) : old(state.input[k - int(old(state.bitsLen))/8]))
 //@   ensures[C02 C04 bits-kept] state.bitsLen > 0 ==> state.bits == old(state.bits) >> uint64(old(state.bitsLen) - state.bitsLen)
